@@ -191,6 +191,9 @@ def _register(form, first, switches, granularity):
 
     ws = [Worker(sched, reg(("a1", "a2"), "impl-a"), granularity, files), Worker(sched, reg(("b1", "b2"), "impl-b"), granularity, files)]
     n = run_two(ws, first, switches, bound=512)
+    LAST[:] = [w.steps for w in ws]
+    if min(LAST) < 5:
+        raise RuntimeError("scheduler: a worker ran unobserved (no yield points): %r" % (LAST,))
     got = {}
     with untraced():        # everything is concrete here
         for al in ("a1", "a2", "b1", "b2", "zz"):
@@ -205,6 +208,7 @@ def _register(form, first, switches, granularity):
     return (2 if got == want else 0), n
 
 
+LAST = []
 REG = {0: "register(alias, impl) twice per thread", 1: "@overload([alias1, alias2]) (list alias)", 2: "@overload(alias) then register"}
 
 
